@@ -1,0 +1,117 @@
+/*
+ * Verification hooks (observation and scheduling points) for the model-checking harnesses in /verif.
+ *
+ * Everything in this header is compiled only with -DOPENSMT_VERIF.  With the guard off every macro
+ * expands to nothing and the library is unchanged.  With the guard on and no sink / no scheduling
+ * callback installed the hooks do nothing observable: trace hooks only append lines to the sink, and
+ * scheduling hooks only call the installed callback.  They never change the control flow of the solver.
+ */
+#ifndef OPENSMT_VERIFHOOKS_H
+#define OPENSMT_VERIFHOOKS_H
+
+#ifdef OPENSMT_VERIF
+
+#include <cstdio>
+#include <cstdlib>
+#include <string>
+
+namespace opensmt::verif {
+
+struct State {
+    FILE * sink = nullptr;
+    bool envChecked = false;
+    void (*sched)(char const *) = nullptr; // scheduling-point callback (controlled scheduler)
+    int derivationDepth = 0;               // > 0 while a clause-deriving procedure (SatELite) runs
+    char const * derivationSite = "";
+};
+
+inline State & state() {
+    static State s;
+    return s;
+}
+
+inline FILE * sink() {
+    State & s = state();
+    if (not s.envChecked) {
+        s.envChecked = true;
+        if (s.sink == nullptr) {
+            if (char const * p = std::getenv("OSMT_VERIF_TRACE")) { s.sink = std::fopen(p, "a"); }
+        }
+    }
+    return s.sink;
+}
+
+// Install (or remove, with nullptr) the trace sink programmatically; overrides OSMT_VERIF_TRACE.
+inline void setSink(FILE * f) {
+    State & s = state();
+    s.envChecked = true;
+    s.sink = f;
+    s.derivationDepth = 0;
+}
+
+inline bool tracing() { return sink() != nullptr; }
+
+inline void emit(std::string const & line) {
+    if (FILE * f = sink()) {
+        std::fputs(line.c_str(), f);
+        std::fputc('\n', f);
+    }
+}
+
+inline void flush() {
+    if (FILE * f = sink()) { std::fflush(f); }
+}
+
+inline void setSched(void (*cb)(char const *)) { state().sched = cb; }
+
+// Scoped marker: clauses added while one of these is alive are derived, not input, clauses.
+struct DerivationScope {
+    char const * prev;
+    explicit DerivationScope(char const * site) : prev(state().derivationSite) {
+        ++state().derivationDepth;
+        state().derivationSite = site;
+    }
+    ~DerivationScope() {
+        --state().derivationDepth;
+        state().derivationSite = prev;
+    }
+    DerivationScope(DerivationScope const &) = delete;
+    DerivationScope & operator=(DerivationScope const &) = delete;
+};
+
+inline bool inDerivation() { return state().derivationDepth > 0; }
+inline char const * derivationSite() { return state().derivationSite; }
+
+} // namespace opensmt::verif
+
+#define OSMT_VERIF_TRACING() (::opensmt::verif::tracing())
+#define OSMT_VERIF_EMIT(expr)                                                                                          \
+    do {                                                                                                               \
+        if (::opensmt::verif::tracing()) { ::opensmt::verif::emit(expr); }                                             \
+    } while (0)
+#define OSMT_VERIF_FLUSH() (::opensmt::verif::flush())
+#define OSMT_VERIF_SCHED(tag)                                                                                          \
+    do {                                                                                                               \
+        if (auto cb_ = ::opensmt::verif::state().sched) { cb_(tag); }                                                  \
+    } while (0)
+#define OSMT_VERIF_DERIVATION_SCOPE(site) ::opensmt::verif::DerivationScope osmtVerifDerivationScope_(site)
+
+#else
+
+#define OSMT_VERIF_TRACING() (false)
+#define OSMT_VERIF_EMIT(expr)                                                                                          \
+    do {                                                                                                               \
+    } while (0)
+#define OSMT_VERIF_FLUSH()                                                                                             \
+    do {                                                                                                               \
+    } while (0)
+#define OSMT_VERIF_SCHED(tag)                                                                                          \
+    do {                                                                                                               \
+    } while (0)
+#define OSMT_VERIF_DERIVATION_SCOPE(site)                                                                              \
+    do {                                                                                                               \
+    } while (0)
+
+#endif // OPENSMT_VERIF
+
+#endif // OPENSMT_VERIFHOOKS_H
